@@ -182,6 +182,8 @@ def plan_C02(q, seed):
     jobs += [rand_job("ELIDE", 60000 if q else 1200000, time_limit=20 if q else 300, label="rand-ELIDE-memsafety-e1")]
     jobs += [rand_job("ELIDE", 50000 if q else 1000000, time_limit=20 if q else 300, extra=["--consume-bias", "2"], label="rand-ELIDE-consume-memsafety-e1")]
     jobs += [rand_job("CONSUME", 50000 if q else 1000000, time_limit=20 if q else 300, extra=["--consume-bias", "3"], label="rand-CONSUME-memsafety-e1")]
+    # AddressSanitizer's own opinion on the consuming calls (incl. failing / evicting Clone inside make_mut), also at the quick tier
+    jobs += [e2(rand_job("CONSUME", 8000 if q else 100000, time_limit=20 if q else 300, extra=["--consume-bias", "3"], label="rand-CONSUME-memsafety-e1"))]
     return {
         "jobs": jobs,
         # a Weak that hands out a handle to a destroyed or moved-out value makes the library (and the
